@@ -41,8 +41,11 @@ def run_cases(args):
         amd = rand_json(rng)
         attrs = [Attribute(name="a", dtype="int32", shape=(2,), custom_metadata={"m": rand_json(rng)}),
                  Attribute(name="bé", dtype="float32", shape=(), custom_metadata=amd if isinstance(amd, dict) else {"v": amd})]
-        md = Metadata(description=rng.choice(["", "plain", "ünï©ødé ☃ \"q\" \\ \n tab\t"]), dataset_license="lic é", dataset_version="1.2.3",
-                      download_from="http://x/ü", custom_metadata={"root": rand_json(rng), "lst": [rand_json(rng)]})
+        def text():
+            parts = ["", "plain", "ünï©ødé ☃", "\"q\"", "\\", "\n", "tab\t", " ", "%20", "%", "100%", "a b", "http://x/ü?q=1&r=é#frag", "{}", "<tag>", "^`|", "null", "1.2.3", "\u0000"[:0] + "z"]
+            return "".join(rng.choice(parts) for _ in range(rng.randrange(0, 4)))
+        md = Metadata(description=text(), dataset_license=text(), dataset_version=text(), download_from=text(),
+                      custom_metadata={"root": rand_json(rng), "lst": [rand_json(rng)], text(): text()})
         st = DatasetStructure(saved_data_description=attrs, compression=comp, examples_per_shard=rng.choice([1, 2, 256]), shard_file_type=fmt,
                               hash_checksum_algorithms=tuple(algos))
         root = base / f"d{i}"
